@@ -187,6 +187,51 @@ def check_infra(tracefile):
         raise vlib.Infra("%d behaviours removed an instance directory on its own (generator bug)" % bad)
 
 
+def diag(ctx, event_line):
+    """which WellFormed clauses are false on the topology of a load event / where an imported topology differs from its
+    source (spec/DiagTopo.tla, spec/DiagXml.tla; same text as vlib.Ctx.diag_topo, usable from several threads)"""
+    if '"topos"' not in event_line:
+        return ""
+    d = ctx.path("diag-%d-%d" % (os.getpid(), random.randrange(1 << 40)))
+    os.makedirs(d)
+    try:
+        for f in os.listdir(vlib.SPEC):
+            if f.endswith(".tla"):
+                shutil.copy(os.path.join(vlib.SPEC, f), d)
+        open(os.path.join(d, "event.ndjson"), "w").write(event_line.strip() + "\n")
+        res = ""
+        for mod in ["DiagTopo"] + (["DiagXml"] if '"e":"xml_import"' in event_line else []):
+            open(os.path.join(d, mod + ".cfg"), "w").write("INIT Init\nNEXT Next\n")
+            cmd = ["java", "-Xmx3g", "-XX:ParallelGCThreads=2", vlib.JAVA_OPTS, "-cp", vlib.TLA_CP, "tlc2.TLC", "-noGenerateSpecTE", "-workers", "1",
+                   "-metadir", os.path.join(d, "meta" + mod), "-config", mod + ".cfg", mod + ".tla"]
+            rc, out = vlib.run(cmd, cwd=d, timeout=600, env={"EVENT": os.path.join(d, "event.ndjson")})
+            if mod == "DiagTopo":
+                m = re.search(r'<<"ALLBAD", (\{.*?\})>>', out)
+                f = re.search(r'<<"FIRSTBAD", "(.*?)">>', out)
+                if m or f:
+                    res = "WellFormed clauses false after the call: first=%s all=%s" % (f.group(1) if f else "?", m.group(1) if m else "?")
+            else:
+                m2 = re.search(r'<<"EQUIVDIFF", (.*)>>', out)
+                if m2:
+                    res += " equiv_diff(object fields, object types, top-level fields)=" + m2.group(1)
+        return res
+    except Exception:
+        return ""
+    finally:
+        shutil.rmtree(d, ignore_errors=True)
+
+
+def trimmed(event_line):
+    """the event without the projections (they are megabytes)"""
+    try:
+        e = json.loads(event_line)
+        if "topos" in e:
+            e["topos"] = ["<%d objects>" % t.get("n", 0) for t in e["topos"]]
+        return json.dumps(e, separators=(",", ":"))
+    except Exception:
+        return event_line[:2000]
+
+
 def explain(tracefile, rej):
     """diagnostic text for a rejected event (not part of the oracle)"""
     try:
@@ -208,21 +253,22 @@ def explain(tracefile, rej):
 
 
 # ---------------------------------------------------------------- trace validation that resumes after a rejected behaviour
-def validate(ctx, tracefile, nshards, timeout=3000, max_rej=12, heap="3g"):
+def validate(ctx, tracefile, nshards, timeout=3000, max_rej=12, heap="3g", quiet=False):
     """like ctx.validate("TraceSnapshot", ...) but a shard is not validated again from its start after a rejection:
     the specification's state is cleared by every Reset event (wf / eq only cache verdicts), so validation resumes
     with the behaviour that follows the rejected one"""
     import concurrent.futures as cf
     module = "TraceSnapshot"
-    d = ctx.path("tv-%d" % len(os.listdir(ctx.dir)))
+    d = ctx.path("tv-%d-%d" % (os.getpid(), random.randrange(1 << 40)))
     os.makedirs(d)
     for f in os.listdir(vlib.SPEC):
         if f.endswith(".tla"):
             shutil.copy(os.path.join(vlib.SPEC, f), d)
     open(os.path.join(d, module + ".cfg"), "w").write("SPECIFICATION Spec\nPOSTCONDITION Accepted\nCHECK_DEADLOCK FALSE\n")
     shards = vlib.split_trace(tracefile, d, nshards)
-    vlib.log("[%6.1fs] validating %s (%.1f MB, %d shards) against %s" % (time.time() - ctx.t0, os.path.basename(tracefile),
-                                                                       os.path.getsize(tracefile) / 1e6, len(shards), module))
+    if not quiet:
+        vlib.log("[%6.1fs] validating %s (%.1f MB, %d shards) against %s" % (time.time() - ctx.t0, os.path.basename(tracefile),
+                                                                           os.path.getsize(tracefile) / 1e6, len(shards), module))
 
     def one(shard):
         rejs, nacc, nev = [], 0, 0
@@ -270,8 +316,9 @@ def validate(ctx, tracefile, nshards, timeout=3000, max_rej=12, heap="3g"):
     with cf.ThreadPoolExecutor(max_workers=vlib.NCPU) as ex:
         for r, nb, ne in ex.map(one, shards):
             rejs += r
-            ctx.accepted += nb
-            ctx.events += ne
+            if not quiet:
+                ctx.accepted += nb
+                ctx.events += ne
     if not os.environ.get("HWV_KEEP"):
         shutil.rmtree(d, ignore_errors=True)
     return rejs
@@ -285,16 +332,28 @@ def run(ctx, replay=None):
     env = {"HWV_WATCHDOG": "60"}
 
     def replay_fn(text):
-        p = ctx.path("replay-%d.beh" % random.randrange(1 << 30))
-        open(p, "w").write(rebase(ctx, text).replace("option compact 1", "option compact 0"))
+        """one behaviour alone in a fresh recorder with full projections; the rejection, if any, comes back with the
+        diagnostics in "why" and the event trimmed of its projections"""
+        tag = "%d-%d" % (os.getpid(), random.randrange(1 << 40))
+        p = ctx.path("replay-%s.beh" % tag)
+        text = rebase(ctx, text).replace("option compact 1", "option compact 0")
+        text = re.sub(r"(?m)^scratch (\S+)$", "scratch " + ctx.path("scr-" + tag), text)      # replays run in parallel
+        open(p, "w").write(text)
         t = p + ".ndjson"
-        ctx.record(exe, p, t, env=env)
+        rc, out = vlib.run([exe, p, t], timeout=1800, env=dict(env, HWLOC_HIDE_ERRORS="2"))
+        shutil.rmtree(ctx.path("scr-" + tag), ignore_errors=True)
+        if rc != 0:
+            raise vlib.Infra("recorder failed rc=%d: %s" % (rc, out[-2000:]))
         check_infra(t)
-        rej = ctx.validate("TraceSnapshot", t, nshards=1)
+        rej = validate(ctx, t, nshards=1, quiet=True)
         for r in rej:
-            x = explain(t, r)
-            if x:
-                r["why"] = (r.get("why", "") + " " + x).strip()
+            r["why"] = " ".join(x for x in (r.get("why", ""), diag(ctx, r["line"]), explain(t, r)) if x)
+            r["line"] = trimmed(r["line"])
+            if r.get("prev"):
+                r["prev"] = trimmed(r["prev"])
+        for f in (p, t):
+            if os.path.exists(f):
+                os.unlink(f)
         return rej
 
     if replay:
@@ -349,9 +408,15 @@ def run(ctx, replay=None):
     check_infra(trf)
     shutil.rmtree(ctx.path("scr"), ignore_errors=True)
     os.makedirs(ctx.path("scr"), exist_ok=True)
-    rejs = validate(ctx, trf, nshards=vlib.NCPU)
+    nshards = max(vlib.NCPU, int(os.path.getsize(trf) / 64e6) + 1)       # a shard is read into memory as a whole
+    rejs = validate(ctx, trf, nshards=nshards, max_rej=200)
     os.unlink(trf)
-    ctx.handle_rejections(rejs, behs, replay_fn)
+    # every rejected behaviour is run again alone in a fresh recorder (handle_rejections demands that); do these runs in parallel
+    import concurrent.futures as cf
+    todo = sorted({behs[r["beh"]] for r in rejs if r.get("beh") is not None and 0 <= r["beh"] < len(behs)})
+    with cf.ThreadPoolExecutor(max_workers=max(1, vlib.NCPU // 2)) as ex:
+        confirmed = dict(zip(todo, ex.map(replay_fn, todo)))
+    ctx.handle_rejections(rejs, behs, lambda text: confirmed[text] if text in confirmed else replay_fn(text))
     return ctx.finish(
         rule="tuples (snapshot, fault set, component selection, filter preset, flag words) enumerated by TLC from MC_Snapshot.tla over the path "
              "tables of every bundled Linux snapshot, CPUID dump and combined snapshot: no removal under every configuration; striped single "
